@@ -210,6 +210,10 @@ def numeric_edges():
             x = z + str(n)
             out += ["%s.0" % x, "1.%s" % x, "%s!1.0" % x, "1.0a%s" % x, "1.0rc%s" % x, "1.0.post%s" % x, "1.0-%s" % x, "1.0.dev%s" % x, "1.0+%s" % x,
                     "1.0+a.%s" % x, "v%s.%s.%s" % (x, x, x)]
+    # no length limit in the grammar: long local segments, many of them, long releases (and the same with one bad character)
+    for n in (255, 256, 257, 511, 512, 513, 1023, 1024, 1025, 2048, 4097, 20000):
+        out += ["1.0+" + "a" * n, "1.0+" + ".".join(["x1"] * (n // 3)), "1!" + ".".join(["1"] * (n // 2)), "1.0rc1.post2.dev3+" + "-".join(["ab"] * (n // 3)), "V1.0+" + "A" * n,
+                "1.0+" + "a" * n + "+", "1.0+" + ".".join(["x1"] * (n // 3)) + "..a", "1!" + ".".join(["1"] * (n // 2)) + "."]
     return out
 
 
